@@ -13,19 +13,10 @@ def adaptors(e):
     return [x[1].rsplit("::", 1)[-1] for x in walk(e) if x[0] == "call"]
 
 
-def run(ctx):
-    ctx.rule("C10-R1", "sum over all voices: VoiceSet::weighted advances the voice iterator and the weight iterator exactly once each (first term), then zips the rest in the same order; no skipping adaptor; every remaining pair goes through mul_add_assign(weight_i, param_i); the accumulated value is returned")
-    ctx.rule("C10-R2", "component coverage: mul yields w*x and mul_add_assign stores x + w*y for each of mean, variance and msd; MeanVari::weighted scales both fields")
-    ctx.rule("C10-R3", "which weights feed what: duration uses get_duration with duration_model; stream(i) uses get_parameter(i) with stream_models[i].stream_model; gv(i) uses get_gv(i) with stream_models[i].gv_model; set_X / get_X of InterporationWeight address field X at the given stream index")
-    p = cm.program(ctx)
-
-    # ---- R1
-    b = cm.body_or_fail(ctx, p, "C10-R1", WEIGHTED)
-    if b is not None:
-        r1(ctx, p, b)
-
-    # ---- R2
-    mv = cm.body_or_fail(ctx, p, "C10-R2", "model::mean_vari::MeanVari::weighted")
+def r2_blend(ctx, p, RULE="C10-R2"):
+    """component coverage of the blend (mean, variance, msd); also run by C11 under its own rule id,
+    because the voicing decision compares the *interpolated* msd with the threshold"""
+    mv = cm.body_or_fail(ctx, p, RULE, "model::mean_vari::MeanVari::weighted")
     if mv is not None:
         ret = ExprBuilder(mv).local(0)
         okk = False
@@ -37,10 +28,10 @@ def run(ctx):
             if p0 == f0 * w and p1 == f1 * w:
                 okk = True
         if okk:
-            ctx.ok("C10-R2", "MeanVari::weighted = (mean*w, vari*w)", mv.loc())
+            ctx.ok(RULE, "MeanVari::weighted = (mean*w, vari*w)", mv.loc())
         else:
-            ctx.fail("C10-R2", mv.path, "return value", "MeanVari::weighted returns %s, expected (mean*w, vari*w)" % show(ret), mv.loc())
-    mb = cm.body_or_fail(ctx, p, "C10-R2", MUL)
+            ctx.fail(RULE, mv.path, "return value", "MeanVari::weighted returns %s, expected (mean*w, vari*w)" % show(ret), mv.loc())
+    mb = cm.body_or_fail(ctx, p, RULE, MUL)
     if mb is not None:
         ret = ExprBuilder(mb).local(0)
         if ret[0] == "agg" and set(ret[3]) == {"parameters", "msd"}:
@@ -55,9 +46,9 @@ def run(ctx):
                 if r[0] == "call" and r[1] == "model::mean_vari::MeanVari::weighted" and r[2][0][0] == "arg" and r[2][1][0] == "upvar" and r[2][1][1].lstrip("*") == "weight":
                     okp = True
             if okp:
-                ctx.ok("C10-R2", "mul: parameters = every MeanVari.weighted(weight)", mb.loc())
+                ctx.ok(RULE, "mul: parameters = every MeanVari.weighted(weight)", mb.loc())
             else:
-                ctx.fail("C10-R2", mb.path, "parameters", "mul does not scale every (mean, variance) pair by the weight: %s" % show(pe)[:160], mb.loc())
+                ctx.fail(RULE, mb.path, "parameters", "mul does not scale every (mean, variance) pair by the weight: %s" % show(pe)[:160], mb.loc())
             me = f["msd"]
             okm = False
             if me[0] == "call" and me[1].endswith("Option::<T>::map") and show(me[2][0]) == "self.msd":
@@ -72,12 +63,12 @@ def run(ctx):
                         if c == 1 and len(ats) == 2 and any(a[0] == "upvar" and a[1].lstrip("*") == "weight" for a in ats) and any(a[0] == "arg" for a in ats):
                             okm = True
             if okm:
-                ctx.ok("C10-R2", "mul: msd = self.msd.map(|m| weight*m)", mb.loc())
+                ctx.ok(RULE, "mul: msd = self.msd.map(|m| weight*m)", mb.loc())
             else:
-                ctx.fail("C10-R2", mb.path, "msd", "mul does not scale the voicing weight: %s" % show(me)[:160], mb.loc())
+                ctx.fail(RULE, mb.path, "msd", "mul does not scale the voicing weight: %s" % show(me)[:160], mb.loc())
         else:
-            ctx.fail("C10-R2", mb.path, "return value", "mul returns %s" % show(ret)[:120], mb.loc())
-    ab = cm.body_or_fail(ctx, p, "C10-R2", MAA)
+            ctx.fail(RULE, mb.path, "return value", "mul returns %s" % show(ret)[:120], mb.loc())
+    ab = cm.body_or_fail(ctx, p, RULE, MAA)
     if ab is not None:
         eb = ExprBuilder(ab)
         sts = stores(ab, eb)
@@ -108,9 +99,9 @@ def run(ctx):
                         comp = "msd"
             if comp:
                 seen.add(comp)
-                ctx.ok("C10-R2", "mul_add_assign: %s <- %s + weight*rhs.%s" % (comp, comp, comp), cm.loc_of(st["span"]))
+                ctx.ok(RULE, "mul_add_assign: %s <- %s + weight*rhs.%s" % (comp, comp, comp), cm.loc_of(st["span"]))
             else:
-                ctx.fail("C10-R2", ab.path, "store " + tshow[-50:], "store %s = %s is not `x += weight * (same component of rhs)`" % (tshow[-80:], show(val)[:160]), cm.loc_of(st["span"]))
+                ctx.fail(RULE, ab.path, "store " + tshow[-50:], "store %s = %s is not `x += weight * (same component of rhs)`" % (tshow[-80:], show(val)[:160]), cm.loc_of(st["span"]))
         # closure form: self.parameters.iter_mut().zip(&rhs.parameters).for_each(|(acc, term)| { acc.k += weight * term.k })
         from ..expr import resolve_upvars
         for fbb, ft in ab.calls():
@@ -150,16 +141,32 @@ def run(ctx):
                         if y[0] == "field" and y[2] == chain[-1] and y[1][0] == "field" and y[1][2] == "1" and y[1][1][0] == "arg":
                             comp = "mean" if chain[-1] == "0" else "variance"
                             seen.add(comp)
-                            ctx.ok("C10-R2", "mul_add_assign: %s <- %s + weight*rhs.%s (for_each over zip(self.parameters, rhs.parameters))" % (comp, comp, comp), cm.loc_of(st["span"]))
+                            ctx.ok(RULE, "mul_add_assign: %s <- %s + weight*rhs.%s (for_each over zip(self.parameters, rhs.parameters))" % (comp, comp, comp), cm.loc_of(st["span"]))
         for comp in ("mean", "variance", "msd"):
             if comp not in seen:
-                ctx.fail("C10-R2", ab.path, "component " + comp, "mul_add_assign leaves the %s unweighted / unaccumulated" % comp, ab.loc())
+                ctx.fail(RULE, ab.path, "component " + comp, "mul_add_assign leaves the %s unweighted / unaccumulated" % comp, ab.loc())
         # the pair loop zips the two parameter vectors without skipping
         its = [eb.call(t) for bb, t in ab.calls() if t["callee"]["k"] == "fndef" and cm.callee_name(t["callee"]).endswith("Iterator::zip")]
         if len(its) == 1 and "self.parameters" in show(its[0]) and "rhs.parameters" in show(its[0]) and not [a for a in adaptors(its[0]) if a in BAD_ADAPTORS]:
-            ctx.ok("C10-R2", "mul_add_assign iterates zip(self.parameters, rhs.parameters) without skipping", ab.loc())
+            ctx.ok(RULE, "mul_add_assign iterates zip(self.parameters, rhs.parameters) without skipping", ab.loc())
         else:
-            ctx.fail("C10-R2", ab.path, "pair loop", "the component loop is not a plain zip of both parameter vectors", ab.loc())
+            ctx.fail(RULE, ab.path, "pair loop", "the component loop is not a plain zip of both parameter vectors", ab.loc())
+
+
+
+def run(ctx):
+    ctx.rule("C10-R1", "sum over all voices: VoiceSet::weighted advances the voice iterator and the weight iterator exactly once each (first term), then zips the rest in the same order; no skipping adaptor; every remaining pair goes through mul_add_assign(weight_i, param_i); the accumulated value is returned")
+    ctx.rule("C10-R2", "component coverage: mul yields w*x and mul_add_assign stores x + w*y for each of mean, variance and msd; MeanVari::weighted scales both fields")
+    ctx.rule("C10-R3", "which weights feed what: duration uses get_duration with duration_model; stream(i) uses get_parameter(i) with stream_models[i].stream_model; gv(i) uses get_gv(i) with stream_models[i].gv_model; set_X / get_X of InterporationWeight address field X at the given stream index")
+    p = cm.program(ctx)
+
+    # ---- R1
+    b = cm.body_or_fail(ctx, p, "C10-R1", WEIGHTED)
+    if b is not None:
+        r1(ctx, p, b)
+
+    # ---- R2
+    r2_blend(ctx, p)
 
     # ---- R3
     want = {
